@@ -65,7 +65,9 @@ NonTrivial(e, j) == LET ob == e.obs[j].B IN
                     ELSE ~AllZeroOb(ob.b)
 
 PremiseOK(e) == Premise(e.pre, e.act, e.post) /\ (PropOf(e.act) = "C12" => LabelsOK(e.pre))
-Ctx(e, lab, dist, f) == <<e.act.name, ClsOf(e), RepOf(e), lab, dist, DecadeOf(e), f>>
+\* context of a rejection: law, class, representation / observer mode, observer class, distance class, decade of the lattice
+\* unit after the step, field, smallest decade involved (before or after the step)
+Ctx(e, lab, dist, f) == <<e.act.name, ClsOf(e), RepOf(e), lab, dist, DecadeOf(e), f, Min2(DecadeOf(e), e.kappa.decade + e.pre.k)>>
 \* everything about event i, evaluated once: rejected sub-instances <<tid, clause, property, context>> and the cells it covers
 Row(e, j) == LET dist == DistClass(e.pre, e.post, j)
                  v == ObsVerdict(e, j, dist)
